@@ -172,7 +172,17 @@ def rejected_objects(fmt, rng):
     out.append(("generalized orbitals", d, "PrepareDumpError", "PrepareDumpError"))
     # occs_aminusb
     d, _ = wo.make(rng, fmt, nbasis_max=14, spin="aminusb", contraction="segmented", ghosts=ghosts, lmax=1, virtuals=True)
-    out.append(("occs_aminusb", d, "PrepareDumpError", "PrepareDumpError" if fmt == "fchk" else "returned"))
+    if fmt == "fchk":
+        # FCHK has no notion of occs_aminusb: the object is acceptable exactly when its alpha and beta occupations are
+        # fully occupied orbitals followed by empty ones (documented rejection reason "non-aufbau occupations")
+        def aufbau(o):
+            n = int(round(float(o.sum())))
+            return bool((o[:n] == 1.0).all() and (o[n:] == 0.0).all())
+
+        exp = "returned" if aufbau(d.mo.occsa) and aufbau(d.mo.occsb) and d.mo.occs.sum() > 0 else "PrepareDumpError"
+        out.append(("occs_aminusb", d, exp, exp))
+    else:
+        out.append(("occs_aminusb", d, "PrepareDumpError", "returned"))
     # generalized contractions (not SP)
     for _ in range(20):
         d, f = wo.make(rng, fmt, nbasis_max=16, spin="restricted", contraction="generalized", ghosts=ghosts, lmax=1, virtuals=True)
